@@ -80,6 +80,9 @@ def cases(shard, nshards, seed, tier):
         for t in range(2 if tier == "quick" else 6):
             if mine():
                 yield {"family": "lib-external-conflicts", "module": "external_conflicts", "argv": ["{in}", f"{seed}:{inp}:{t}"], "input": inp}
+            if t == 0 and mine():
+                # the same structure's interactions as an FR3D listing with repeated rows, through the adapter
+                yield {"family": "lib-fr3d-listing-with-repeated-rows", "module": "fr3d_listing", "argv": ["{in}", f"{seed}:{inp}:fr3d"], "input": inp}
     # a residue whose name gives no letter and whose base atoms fit two bases equally (pyrimidine without O4/N4)
     for t in range(2 if tier == "quick" else 6):
         if mine():
@@ -212,7 +215,19 @@ def _batch_case(case, rec):
                 pth = os.path.join(workdir, f"conf{k}.cif")
                 open(pth, "w").write(emit.emit_cif(rows))
                 paths.append(pth)
+                if k == 0:
+                    # ... and a copy whose atoms are moved by a few 1e-4 A (the same entry re-exported with five decimals
+                    # by another program): every derived number is almost, but not exactly, the same
+                    near = gen3d.apply_ops(base, [{"op": "jitter", "seed": f"{seed}:C14:near:{case['i']}", "sigma": 0.0003}])
+                    pth = os.path.join(workdir, "conf0-almost-the-same.cif")
+                    open(pth, "w").write(emit.emit_cif(emit.rows_from_structure(near, decimals=5), decimals=5))
+                    paths.append(pth)
             rng.shuffle(paths)
+            # the nearly identical copy is handled right after the original
+            o, nr = os.path.join(workdir, "conf0.cif"), os.path.join(workdir, "conf0-almost-the-same.cif")
+            if nr in paths:
+                paths.remove(nr)
+                paths.insert(paths.index(o) + 1, nr)
             single = "lib3d_batch"
         env = dict(os.environ, PYTHONHASHSEED="0", LOGLEVEL="CRITICAL", VERIF_REPO=core.REPO)
 
@@ -317,7 +332,7 @@ def run_case(case, rec):
         if diff:
             mech = f"{case['module']}:{diff['output'].split('/')[-1].split('_model_')[0]}:{'reordered' if diff['same-multiset-of-lines'] else 'content'}"
         rec.check("outputs.byte-identical-across-seeds", diff is None, lambda: {"case": case, "diff": diff}, mechanism=mech)
-        if case["module"] in ("lib2d", "lib3d", "external_conflicts", "writecif") and base["<rc>"] == "0":
+        if case["module"] in ("lib2d", "lib3d", "external_conflicts", "fr3d_listing", "writecif") and base["<rc>"] == "0":
             rec.check("outputs.inprocess-repeat-identical", "INPROCESS-REPEAT-EQUAL True" in base["<stdout>"], lambda: {"case": case})
         rec.count(f"runs", len(runs))
     finally:
